@@ -73,6 +73,14 @@ def check_pair(left, right, form, fn, options, acc, chunk_seed=0):
         a, b = chunked(left, r), chunked(right, r)
     elif form == 'array':
         a, b = list(left), list(right)
+    elif form in ('array-str', 'str-array'):
+        # one side an array of lines, the other an LF-joined string
+        a = list(left) if form == 'array-str' else '\n'.join(left)
+        b = '\n'.join(right) if form == 'array-str' else list(right)
+        if form == 'array-str' and not right:
+            right = ['']
+        if form == 'str-array' and not left:
+            left = ['']
     else:
         eol = '\n' if form == 'lf' else '\r\n'
         a, b = eol.join(left), eol.join(right)
@@ -189,12 +197,19 @@ def run_shard(spec, acc):
                     right.insert(j, right.pop(i))
             if rnd.random() < 0.15:
                 right = [rnd.choice(words) for _ in range(rnd.randint(0, 40))]
-            form = rnd.choice(['array', 'lf', 'crlf'])
+            form = rnd.choice(['array', 'lf', 'crlf', 'array-str', 'str-array'])
             check_pair(left, right, form, fn, options, acc)
+            if rnd.random() < 0.3:
+                # array elements that end in (or contain) a bare CR are lines of their own: CR is only part of a CRLF line end
+                crw = ['alpha\r', '\r', 'a\rb', 'x', 'y', '']
+                l2 = [rnd.choice(crw) for _ in range(rnd.randint(1, 8))]
+                r2 = [w for w in l2 if rnd.random() < 0.8] + [rnd.choice(crw) for _ in range(rnd.randint(0, 2))]
+                check_pair(l2, r2, 'array', fn, options, acc)
+                check_pair(l2, [w.rstrip('\r') for w in l2], 'array', fn, options, acc)
             if rnd.random() < 0.25 and len(left) >= 2 and len(right) >= 2:
                 # array elements may themselves hold several lines (LF or CRLF inside an element)
                 check_pair(left, right, 'chunks', fn, options, acc, chunk_seed=rnd.randint(0, 10 ** 6))
-        acc.sample({'forms': ['array', 'lf', 'crlf'], 'max_lines': 40}, limit=1)
+        acc.sample({'forms': ['array', 'lf', 'crlf', 'array-str', 'str-array', 'chunks', 'array with CR-ending elements'], 'max_lines': 40}, limit=1)
 
 
 def replay(spec, acc):
